@@ -59,7 +59,7 @@ def main(path):
         fails = [f for f in fails if not co.findings.match(pid, {"clause": f[2], **calls.meta[0]})]
     elif fam == "hook":
         import checks_world
-        res = checks_world.hook_part(0)
+        res = checks_world.hook_part(0, pid=pid)
         for line in res["lines"]:
             print(line)
         if not res["violations"]:
